@@ -79,6 +79,64 @@ pub fn check_case(case: &MapCase, st: &mut Stats) -> Check {
     check_bytes(&bytes, &u, case.key, st)
 }
 
+/// Names outside the representable domain (empty obfuscated / original names, dotted leftovers): both writers
+/// still emit version-1 files for them, and the two readers must agree on those bytes. Numbers stay small: the
+/// repaired line arithmetic (saturating instead of wrapping) is the one documented reader difference.
+#[derive(Clone, Debug, serde::Serialize, serde::Deserialize)]
+pub struct OddNames {
+    pub map: MapCase,
+    pub inject: Vec<(u16, u16, u8, u8, u8)>,
+}
+
+pub const ODD: &[&str] = &["", "a", "b", ".", "a.", ".a", "x y", "é", "<init>"];
+
+pub fn odd_names_case() -> proptest::strategy::BoxedStrategy<OddNames> {
+    use proptest::prelude::*;
+    let c = GenCfg { max_blocks: 4, max_items: 6, long: 0, ..cfg() };
+    (map_case(&c), proptest::collection::vec((any::<u16>(), any::<u16>(), 0u8..9, 0u8..9, 0u8..5), 1..6)).prop_map(|(map, inject)| OddNames { map, inject }).boxed()
+}
+
+pub fn check_odd(c: &OddNames, st: &mut Stats) -> Check {
+    let mut f = c.map.file.clone();
+    for (b, p, n1, n2, kind) in &c.inject {
+        let (x, y) = (ODD[*n1 as usize % ODD.len()], ODD[*n2 as usize % ODD.len()]);
+        let line = match kind % 5 {
+            0 => format!("    void {x}() -> {y}"),
+            1 => format!("    1:3:void {x}(int):5:7 -> {y}"),
+            2 => format!("    int {x} -> {y}"),
+            3 => format!("{x} -> {y}:"),
+            _ => format!("    2:2:void q.{x}():9 -> {y}"),
+        };
+        if f.blocks.is_empty() {
+            f.prelude.push(crate::gen::mapping::Item::Noise(line));
+            continue;
+        }
+        let bi = (*b as usize * f.blocks.len()) >> 16;
+        let items = &mut f.blocks[bi].items;
+        let at = (*p as usize * (items.len() + 1)) >> 16;
+        items.insert(at, crate::gen::mapping::Item::Noise(line));
+    }
+    let bytes = f.render(&c.map.render);
+    // the universe must contain the odd names themselves
+    let mut u = Universe::from_bytes(&bytes, false, 40, c.map.key);
+    for o in ODD {
+        if !u.known_methods.iter().any(|m| m == o) {
+            u.other_methods.push(o.to_string());
+        }
+        if !u.known_classes.iter().any(|m| m == o) {
+            u.other_classes.push(o.to_string());
+        }
+    }
+    u.known_methods.extend(ODD.iter().map(|s| s.to_string()));
+    u.known_methods.sort();
+    u.known_methods.dedup();
+    st.class("mapping with empty / odd names (outside the representable domain, still written as version 1)");
+    if st.want_sample() {
+        st.sample(|| json!({"mapping with odd names": crate::engine::show_bytes(&bytes)}));
+    }
+    check_bytes(&bytes, &u, c.map.key, st)
+}
+
 pub fn check_corpus(case: &super::c02::CorpusCase, st: &mut Stats) -> Check {
     let mut bytes = std::fs::read(&case.path).map_err(|e| Fail::new("harness-io", format!("{}: {e}", case.path)))?;
     if case.crlf {
@@ -102,6 +160,7 @@ pub fn run(ctx: &Ctx) -> Report {
     ];
     let n = ctx.cases(4000, 180_000);
     rep.run_stage("ast", || map_case(&cfg()), n, check_case);
+    rep.run_stage("odd-names", odd_names_case, ctx.cases(3_000, 60_000), check_odd);
     let corpus = super::c02::corpus_cases(ctx);
     rep.run_enum("corpus", &corpus, check_corpus);
     super::scale::run(&mut rep, ctx, "C10");
@@ -115,6 +174,7 @@ pub fn replay(stage: &str, case: &Value) -> Check {
     }
     match stage {
         "ast" => check_case(&serde_json::from_value(case.clone()).map_err(|e| Fail::new("harness-replay", e.to_string()))?, &mut st),
+        "odd-names" => check_odd(&serde_json::from_value(case.clone()).map_err(|e| Fail::new("harness-replay", e.to_string()))?, &mut st),
         "corpus" => check_corpus(&serde_json::from_value(case.clone()).map_err(|e| Fail::new("harness-replay", e.to_string()))?, &mut st),
         _ => Err(Fail::new("harness-replay", format!("unknown stage {stage}"))),
     }
